@@ -8,6 +8,13 @@ Re-baseline the reviewed hidden-state inventory of property C19 after the source
                                      review remarks (`-- ...` lines in front of a row) are kept for rows whose
                                      (file, qualified name, kind) still exists; rows that are new or whose detail
                                      changed get a `-- REVIEW:` remark that a human has to replace by a judgement.
+  tools/c19_rebaseline.py --aliases [--write]
+                                     the construction probe's reviewed list harness/props/c19.aliases.json: every piece of sharing
+                                     between a constructed object and library-held state / a second instance / the caller's argument
+                                     that the probe (harness/props/c19_graph.py) finds on the tree as it is now.  Without --write:
+                                     what is new / gone.  With --write: the file is rewritten; remarks of entries that still exist are
+                                     kept, new entries get a remark starting with "REVIEW" - such an entry suppresses nothing until a
+                                     person has replaced the remark by a judgement.
 Afterwards: /venv/bin/python tools/update_baseline.py  and  harness/check.py C19 --tier quick.
 A check never calls this tool: a changed inventory must be looked at by a person.
 """
@@ -29,7 +36,48 @@ def unl(s):
     return s.replace('\\"', '"').replace("\\\\", "\\")
 
 
+def aliases(write):
+    import json
+
+    sys.path.insert(0, os.path.join(HERE, "..", "harness"))
+    from props import c19
+
+    _lst, results = c19.construction_results(thorough=True, ncpu=8, seed=0)
+    found = {}
+    for _t, res in results:
+        for f in (res or {}).get("findings") or []:
+            for k in c19.construction_keys(res, f):
+                found.setdefault(k, res["call"])
+    old = {c19.alias_key(e): e for e in c19.ALIASES}
+    for k in sorted(found):
+        if k not in old:
+            print("NEW  ", " | ".join(k), "   e.g.", found[k][:100])
+    for k in sorted(old):
+        if k not in found:
+            print("GONE ", " | ".join(k))
+    if set(found) == set(old):
+        print(f"the sharing found equals the reviewed list ({len(old)} entries)")
+    if write:
+        out = []
+        for k in sorted(found):
+            e = old.get(k) or {"cls": k[0], "via": k[1], "path": k[2], "with": k[3], "label": k[4], "remark": "REVIEW: new, judge it and replace this remark"}
+            out.append(e)
+        with open(c19.ALIASES_FILE, "w") as f:
+            try:
+                keep_roots = json.load(open(c19.ALIASES_FILE)).get("reviewed_result_roots", [])
+            except Exception:  # noqa
+                keep_roots = []
+            json.dump({"reviewed_result_roots": keep_roots, "note": "`reviewed_result_roots` (label prefixes of library-held objects that results of catalogued calls may reference) is kept by hand; reviewed sharing between constructed objects and library state / other instances / the caller's arguments on the unchanged tree; "
+                               "regenerate with tools/c19_rebaseline.py --aliases --write; an entry whose remark starts with REVIEW suppresses nothing",
+                       "reviewed": out}, f, indent=1)
+            f.write("\n")
+        print(f"{c19.ALIASES_FILE} rewritten ({len(out)} entries)")
+    return 1 if set(found) != set(old) else 0
+
+
 def main():
+    if "--aliases" in sys.argv:
+        return aliases("--write" in sys.argv)
     spec = importlib.util.spec_from_file_location("scan_state", os.path.join(HERE, "scan_state.py"))
     mod = importlib.util.module_from_spec(spec)
     spec.loader.exec_module(mod)
